@@ -104,6 +104,15 @@ func verifSigs(v *VAA) []vSig {
 	return out
 }
 
+func verifC04Row(kind string, v *VAA, secs, nsec int64, body, m, dg []byte, mon []string) map[string]interface{} {
+	return map[string]interface{}{
+		"k": "c04", "kind": kind, "version": int(v.Version), "gsidx": v.GuardianSetIndex, "sigs": verifSigs(v), "secs": secs, "nsec": nsec,
+		"nonce": v.Nonce, "echain": uint16(v.EmitterChain), "tchain": uint16(v.TargetChain), "eaddr": hex.EncodeToString(v.EmitterAddress[:]),
+		"seq": fmt.Sprint(v.Sequence), "cl": v.ConsistencyLevel, "payload": hex.EncodeToString(v.Payload),
+		"body": hex.EncodeToString(body), "marshal": hex.EncodeToString(m), "digest": hex.EncodeToString(dg), "mon": mon,
+	}
+}
+
 // TestVerifC04 : serializer outputs for generated VAAs + direct monitors of the C04 statement
 func TestVerifC04(t *testing.T) {
 	r := &vrng{s: verifSeed()}
@@ -192,13 +201,26 @@ func TestVerifC04(t *testing.T) {
 		if v.MessageID() != fmt.Sprintf("%d/%s/%d/%d", uint16(v.EmitterChain), hex.EncodeToString(v.EmitterAddress[:]), uint16(v.TargetChain), v.Sequence) {
 			mon = append(mon, "MessageID format")
 		}
-		o.emit(map[string]interface{}{
-			"k": "c04", "version": int(v.Version), "gsidx": v.GuardianSetIndex, "sigs": verifSigs(v), "secs": secs, "nsec": nsec,
-			"nonce": v.Nonce, "echain": uint16(v.EmitterChain), "tchain": uint16(v.TargetChain), "eaddr": hex.EncodeToString(v.EmitterAddress[:]),
-			"seq": fmt.Sprint(v.Sequence), "cl": v.ConsistencyLevel, "payload": hex.EncodeToString(v.Payload),
-			"body": hex.EncodeToString(body), "marshal": hex.EncodeToString(m), "digest": hex.EncodeToString(dg.Bytes()), "mon": mon,
-		})
+		o.emit(verifC04Row("gen", v, secs, nsec, body, m, dg.Bytes(), mon))
 	}
+	// the fixed VAA of coq/props/C04.v (ex_vaa): its digest is an Example there, computed by the Gallina Keccak-256
+	{
+		v := &VAA{Version: 1, GuardianSetIndex: 3, Timestamp: time.Unix(1700000000, 0), Nonce: 7, Sequence: 42, ConsistencyLevel: 1,
+			EmitterChain: ChainID(255), TargetChain: ChainID(2), Payload: []byte{1, 2, 3}}
+		copy(v.EmitterAddress[:], bytes.Repeat([]byte{0xab}, 32))
+		s0, s2 := &Signature{Index: 0}, &Signature{Index: 2}
+		copy(s0.Signature[:], bytes.Repeat([]byte{0x11}, 65))
+		copy(s2.Signature[:], bytes.Repeat([]byte{0x22}, 65))
+		v.Signatures = []*Signature{s0, s2}
+		m, err := v.Marshal()
+		if err != nil {
+			t.Fatal(err)
+		}
+		dg := v.SigningMsg()
+		o.emit(verifC04Row("ex_vaa", v, 1700000000, 0, v.SerializeBody(), m, dg.Bytes(), []string{}))
+	}
+	// Keccak-256 alone: rows "kk" (zz_verif_keccak_test.go), evaluated by the Gallina function lib/Keccak.v inside Coq
+	verifKeccakRows(o, r)
 }
 
 func verifErrKind(err error) int {
